@@ -2,6 +2,7 @@ package props
 
 import (
 	"fmt"
+	"regexp"
 	"sort"
 	"strings"
 
@@ -425,6 +426,10 @@ func leafCandidates(s J) []interface{} {
 	if en, ok := s["enum"].([]interface{}); ok {
 		out = append(append(A{}, en...), out...)
 	}
+	if len(out) == 0 {
+		// untyped schema: any JSON value
+		out = A{"s", 1, true, J{"k": 1}, A{1, "x"}}
+	}
 	return out
 }
 
@@ -603,3 +608,29 @@ func Instances(d DefCase) []interface{} {
 }
 
 func sortStrings(s []string) []string { sort.Strings(s); return s }
+
+var rxDigits = regexp.MustCompile(`[0-9]+`)
+
+func refValidKeepDefaults(schema J, root J, data interface{}) bool {
+	return refValid(schema, root, data)
+}
+
+// validationErrors returns the reference validator's messages (first three).
+func validationErrors(schema J, root J, data interface{}) string {
+	schema = stripKey(schema, "default").(J)
+	root = stripKey(root, "default").(J)
+	var sch spec.Schema
+	if err := sch.UnmarshalJSON(mustJSON(schema)); err != nil {
+		return err.Error()
+	}
+	v := validate.NewSchemaValidator(&sch, normalizeJSON(root), "", strfmt.Default)
+	res := v.Validate(normalizeJSON(data))
+	var msgs []string
+	for i, e := range res.Errors {
+		if i >= 3 {
+			break
+		}
+		msgs = append(msgs, e.Error())
+	}
+	return strings.Join(msgs, "; ")
+}
